@@ -359,6 +359,11 @@ def op_text(op, sp=ABS):
         for g in op.get("named", []):
             parts.append(f"USING NAMED {sp.t(g)}")
         w = _block(op["where"], False, sp)
+        wm = op.get("wmode")
+        if wm and wm[0] == "union":
+            w = f"{{ {w} }} UNION {{ {_block(wm[1], False, sp)} }}"
+        elif wm and wm[0] == "proj":
+            w = f"{{ SELECT {' '.join(n3(v) for v in wm[1])} WHERE {{ {w} }} }}"
         if op.get("filter"):
             v, o, c = op["filter"]
             w += f" FILTER ({sp.t(v)} {o} {sp.t(c)})"
@@ -425,8 +430,7 @@ def _compatible_merge(a, b):
     return {**a, **b}
 
 
-def spec_where(where, flt, dflt, named):
-    """solutions of the group `where` over the query dataset (dflt : set of triples, named : {g: triples})."""
+def _group_sols(where, dflt, named):
     sols = [{}]
     for g, grp in itertools.groupby(where, key=lambda q: q[3]):
         pats = [q[:3] for q in grp]
@@ -439,17 +443,22 @@ def spec_where(where, flt, dflt, named):
         else:
             part = _bgp(pats, named.get(g, set()), [{}])
         sols = [m for a in sols for b in part for m in [_compatible_merge(a, b)] if m is not None]
+    return sols
+
+
+def spec_where(where, flt, dflt, named, wmode=None):
+    """solutions of the WHERE clause over the query dataset (dflt : set of triples, named : {g: triples}) as a
+    BAG (list): `{A} UNION {B}` is the two bags one after the other, a sub-select projects every row — equal
+    solutions are kept as often as they occur, and each occurrence gets its own fresh blank nodes."""
+    sols = _group_sols(where, dflt, named)
+    if wmode and wmode[0] == "union":
+        sols = sols + _group_sols(wmode[1], dflt, named)
+    elif wmode and wmode[0] == "proj":
+        sols = [{v: t for v, t in m.items() if v in wmode[1]} for m in sols]
     if flt:
         v, o, c = flt
         sols = [m for m in sols if v in m and ((m[v] == c) if o == "=" else (m[v] != c))]
-    # a set of solutions is enough: Dataset(QuadPattern, Ω) is a union over μ ∈ Ω and sk_μ depends on μ only
-    seen, out = set(), []
-    for m in sols:
-        key = tuple(sorted(m.items()))
-        if key not in seen:
-            seen.add(key)
-            out.append(m)
-    return out
+    return sols
 
 
 def spec_instantiate(template, mu, default_target, fresh, info=None):
@@ -491,7 +500,8 @@ def _needs_dataset(op):
         return any(q[3] != 0 for q in op["q"])
     if k == "modify":
         return bool(op.get("with") or op.get("using") or op.get("named")
-                    or any(q[3] != 0 for part in ("del", "ins", "where") for q in (op.get(part) or [])))
+                    or any(q[3] != 0 for part in ("del", "ins", "where") for q in (op.get(part) or []))
+                    or bool(op.get("wmode") and op["wmode"][0] == "union" and any(q[3] != 0 for q in op["wmode"][1])))
     if k in ("clear", "drop"):
         return op["t"] not in ("DEFAULT", "ALL", "NAMED")
     return op["src"] != 0 or op["dst"] != 0
@@ -534,7 +544,12 @@ def spec_op(op, G, eff_union, single_graph, fresh, info=None):
                 dflt = set().union(*G.values()) if G else set()
             else:
                 dflt = graph(0)
-        sols = spec_where(op["where"], op.get("filter"), dflt, nmd)
+        sols = spec_where(op["where"], op.get("filter"), dflt, nmd, op.get("wmode"))
+        keys = [tuple(sorted(m.items())) for m in sols]
+        if len(set(keys)) < len(keys):
+            info["where_with_repeated_solution"] = info.get("where_with_repeated_solution", 0) + 1
+            if op.get("ins") and any(kind(x) in "tb" for q in op["ins"] for x in q[:3]):
+                info["repeated_solution_and_template_bnode"] = info.get("repeated_solution_and_template_bnode", 0) + 1
         dels, inss, per = set(), set(), []
         for mu in sols:
             d = spec_instantiate(op["del"], mu, w, fresh, info) if op.get("del") is not None else set()
@@ -607,7 +622,7 @@ def canon(quads):
     """quads: tuples of ints (vocabulary) or ('f', label) for nodes minted by the update.
     Returns the sorted list of int quads with minted nodes numbered 1000… canonically:
     exact per connected component (colour refinement, then every order respecting the colour classes is
-    tried and the least form kept), components sorted."""
+    tried and the least form kept; beyond 5000 orders: an invariant, see below), components sorted."""
     ground = sorted(q for q in quads if not any(isinstance(x, tuple) for x in q))
     rest = [q for q in quads if any(isinstance(x, tuple) for x in q)]
     parent = {}
@@ -647,8 +662,15 @@ def canon(quads):
         for g_ in groups:
             for k in range(2, len(g_) + 1):
                 budget *= k
-        if budget > 50000:                # never seen; a deterministic but label-dependent fallback
-            orders = [[nd for g_ in groups for nd in g_]]
+        if budget > 5000:
+            # a big, highly symmetric component (dozens of minted nodes chained over several operations):
+            # fall back to an isomorphism INVARIANT — every node numbered by its colour class, nodes of one
+            # class share a number.  Isomorphic datasets still print alike (no false alarm); the exact decision
+            # on such inputs is left to the property oracle (isoutil.iso), which never uses this numbering.
+            rank = {c_: i for i, c_ in enumerate(sorted(classes))}
+            forms.append((sorted(tuple(-1 - rank[col[x]] if isinstance(x, tuple) else x for x in q) for q in qs),
+                          len(classes)))
+            continue
         else:
             orders = ([nd for part in combo for nd in part]
                       for combo in itertools.product(*[itertools.permutations(g_) for g_ in groups]))
@@ -825,6 +847,8 @@ def run_impl(case):
                 if any(kind(q[3]) == "v" for q in o[f]):
                     stats["graph_var_in_several_blocks"] = stats.get("graph_var_in_several_blocks", 0) + 1
         if o["k"] == "modify":
+            if o.get("wmode"):
+                stats["modify_where_" + o["wmode"][0]] = stats.get("modify_where_" + o["wmode"][0], 0) + 1
             for f in ("with", "using", "named", "filter", "del", "ins"):
                 if o.get(f):
                     stats["modify_" + f] = stats.get("modify_" + f, 0) + 1
@@ -851,6 +875,14 @@ def _qs(quads, sp=ABS):
     return " ".join(f"{sp.m(s)} {sp.m(p)} {sp.m(o)} {sp.m(g)}" for s, p, o, g in quads)
 
 
+def _wmode_tokens(wm, sp):
+    if wm and wm[0] == "union":
+        return [1, len(wm[1]), _qs(wm[1], sp)]
+    if wm and wm[0] == "proj":
+        return [2, len(wm[1]), *wm[1]]
+    return [0]
+
+
 def op_line(op, sp=ABS):
     k = op["k"]
     if k in ("insertdata", "deletedata", "deletewhere"):
@@ -865,6 +897,7 @@ def op_line(op, sp=ABS):
             len(op.get("using", [])), *[sp.m(g) for g in op.get("using", [])],
             len(op.get("named", [])), *[sp.m(g) for g in op.get("named", [])],
             len(op["where"]), _qs(op["where"], sp),
+            *_wmode_tokens(op.get("wmode"), sp),
             *([1, f[0], 0 if f[1] == "=" else 1, sp.m(f[2])] if f else [0])] if x != "")
     s = 1 if op.get("silent") else 0
     if k in ("clear", "drop"):
@@ -1166,8 +1199,28 @@ def _gen_case(rng, tier, i):
                     i = template(wvars, rng.randint(1, 3), tg, rng.random() < 0.5)
         if d is not None:
             d = [[x if kind(x) != "b" else 1 for x in q] for q in d]   # no blank nodes in DELETE templates
+        # WHERE clauses whose solutions REPEAT (solutions are a bag): { A } UNION { A' } and a sub-select that
+        # projects a variable away; mostly with a blank node in the INSERT template (fresh per OCCURRENCE)
+        wmode, r2 = None, rng.random()
+        if where and r2 < 0.2:
+            if rng.random() < 0.6:
+                other = [list(q) for q in where]
+            else:
+                other = pattern(rng.randint(1, 2), sorted({q[3] for q in where}, key=str),
+                                using if (using or named) else [w] if w else None)
+                other = [[x if kind(x) != "b" else 42 for x in t[:3]] + [t[3]] for t in other]
+            wmode = ["union", other]
+        elif where and wvars and r2 < 0.32:
+            keep = [v for v in wvars if rng.random() < 0.6] or [rng.choice(wvars)]
+            wmode = ["proj", keep]
+            if flt and flt[0] not in keep and rng.random() < 0.7:
+                flt = None
+        if wmode and rng.random() < 0.75:
+            extra = [rng.choice((wmode[1] if wmode[0] == "proj" else wvars) or [1]), rng.choice(pred), 50,
+                     rng.choice([0] if single else [0, 0] + anyg)]
+            i = _group((i or []) + [extra]) if not split else (i or []) + [extra]
         return {"k": "modify", "with": w, "del": d, "ins": i, "using": using, "named": named, "where": where,
-                "filter": flt, "split": split}
+                "filter": flt, "split": split, "wmode": wmode}
 
     ops = [gen_op() for _ in range(rng.choice([1, 1, 1, 2, 2, 3, 4]))]
     case = {"api": api, "union": union, "init": init, "reg": reg, "ops": ops, "prep": rng.random() < 0.25}
@@ -1246,7 +1299,7 @@ def _shrink(case):
                 for j in range(len(lst)):
                     yield {**case, "ops": ops[:i] + [{**op, f: lst[:j] + lst[j + 1:]}] + ops[i + 1:]}
         if op["k"] == "modify":
-            for f, v in (("with", None), ("filter", None), ("using", []), ("named", [])):
+            for f, v in (("with", None), ("filter", None), ("using", []), ("named", []), ("wmode", None)):
                 if op.get(f):
                     yield {**case, "ops": ops[:i] + [{**op, f: v}] + ops[i + 1:]}
             if op.get("del") is not None and op.get("ins") is not None:
